@@ -114,10 +114,12 @@ def run(ctx):
     ctx.notes["original_algorithm_rejected_by"] = r0.violation
 
     # 2. spec -> code: every scenario of the small model through the real function, every buffer size
-    ioc = f""" Alphabet = {c['Alphabet']}
- MaxHay = {c['MaxHay']}
- MaxNeedle = {c['MaxNeedle']}
- MaxStart = {c['MaxStart']}
+    # (the thorough table is one size below the thorough model: TLC refuses to build sets of more than 10^6 rows)
+    tc = c if ctx.quick else dict(c, MaxHay=6, MaxStart=1)
+    ioc = f""" Alphabet = {tc['Alphabet']}
+ MaxHay = {tc['MaxHay']}
+ MaxNeedle = {tc['MaxNeedle']}
+ MaxStart = {tc['MaxStart']}
  AkAlphabet = {{0,16,17}}
  AkMaxLen = {6 if ctx.quick else 7}"""
     tab = core.tlc_table(ctx, "ScanIO", ioc)
